@@ -163,10 +163,31 @@ func (t *hty) funcCoq(heapT string) string {
 		}
 	case t.monadic:
 		ps = append(ps, "res "+paren(rs))
+	case len(t.objParamTypes()) > 0:
+		// a callback that is handed objects (f(w, ch, fi) with w an io.Writer): it may use them,
+		// so it answers in res and hands every object back after its results
+		var all []*hty
+		all = append(all, t.res...)
+		all = append(all, t.objParamTypes()...)
+		ps = append(ps, "res "+paren(htuple(all)))
 	default:
 		ps = append(ps, rs)
 	}
 	return strings.Join(ps, " -> ")
+}
+
+// objParamTypes: the object parameters of a plain callback (no state, no shape, not extern)
+func (t *hty) objParamTypes() []*hty {
+	if t.k != "func" || t.stateful || t.shape != nil || t.monadic || t.raw != "" {
+		return nil
+	}
+	var os []*hty
+	for _, p := range t.params {
+		if p.k == "obj" {
+			os = append(os, p)
+		}
+	}
+	return os
 }
 
 func htuple(ts []*hty) string {
@@ -687,6 +708,11 @@ func (g *hgen) typeOf(t types.Type, at ast.Node) *hty {
 			if b, ok := v.Underlying().(*types.Basic); ok {
 				return g.typeOf(b, at)
 			}
+			// a named function type (`type FormatFunc func(w io.Writer, ch []*Chunk, fi *FileInfo) error`):
+			// its signature (a named type without methods of its own adds nothing to the value)
+			if sig, ok := v.Underlying().(*types.Signature); ok && v.NumMethods() == 0 {
+				return g.typeOf(sig, at)
+			}
 			return nil
 		}
 		if s.cell {
@@ -1047,7 +1073,35 @@ func (c *hctx) mustType(t types.Type, at ast.Node) *hty {
 	if r.k == "struct" {
 		c.useStruct(r.st, at)
 	}
+	// a struct mentioned only behind an optional pointer or in the type of a callback
+	// (`fi *FileInfo`, `f FormatFunc` of Diff.Format): its record is needed too
+	c.useMentioned(r, at)
 	return r
+}
+
+func (c *hctx) useMentioned(r *hty, at ast.Node) {
+	switch r.k {
+	case "opt":
+		if r.elem != nil && r.elem.k == "struct" && r.elem.st != nil {
+			c.useStruct(r.elem.st, at)
+		}
+	case "func":
+		if r.raw != "" {
+			return
+		}
+		for _, p := range r.params {
+			if p.k == "struct" && p.st != nil {
+				c.useStruct(p.st, at)
+			}
+			c.useMentioned(p, at)
+		}
+		for _, p := range r.res {
+			if p.k == "struct" && p.st != nil {
+				c.useStruct(p.st, at)
+			}
+			c.useMentioned(p, at)
+		}
+	}
 }
 
 func (c *hctx) useStruct(s *hstruct, at ast.Node) {
